@@ -119,6 +119,76 @@ def chain_only_pushed(ctx, rule, ty_marker='UserComponent'):
     ctx.floor(rule, 'mutable accesses to chain vectors', n, 1)
 
 
+def _scope_lookup_iterator_form(ctx, rule, fn, inner, b0, crate):
+    """the same walk, written as `order(scope).find_map(|s| table.get(&s)?.inner(ty))` where `order` is a `from_fn` over a FIFO:
+    -> True if this form was recognised (and the obligation emitted)"""
+    from ..inline import inlined, closures_of
+    SG = A + 'user_components::scope_graph::ScopeId::'
+    b = inlined(ctx.fb, b0, keep={inner})
+    cls = closures_of(ctx.fb, b)
+    prod = [x for x in cls if any((callee(t) or '').endswith('VecDeque::pop_front') for _, t in x.calls())]
+    cons = [x for x in cls if any(callee(t) == inner for _, t in x.calls())]
+    ff = [(bb, t) for bb, t in b.calls() if callee(t) == 'core::iter::sources::from_fn::from_fn']
+    fm = [(bb, t) for bb, t in b.calls() if callee(t) in ('core::iter::traits::iterator::Iterator::find_map',)]
+    if len(prod) != 1 or len(cons) != 1 or not ff or len(fm) != 1:
+        return False
+    P, C = prod[0], cons[0]
+    name = fn.split('::')[-2] + '::' + fn.split('::')[-1]
+    dP = Defs(P)
+    # producer: pops the front, extends with the direct parents of what it popped, yields what it popped
+    qops = sorted({callee(t).split('::')[-1] for x in [b, P] for _, t in x.calls() if 'VecDeque' in (t['aty'][0] if t['aty'] else '')
+                   and callee(t).split('::')[-1] in ('pop_front', 'pop_back', 'push_front', 'push_back')})
+    chi = [1 for x in [b, P, C] for _, t in x.calls() if callee(t) in (SG + 'direct_children_ids', SG + 'descendant_ids', SG + 'children_ids')]
+    ext = [(bb, t) for bb, t in P.calls() if (callee(t) or '').endswith('::extend') and 'VecDeque' in t['aty'][0]]
+    from_parents = bool(ext) and all((SG + 'direct_parent_ids') in {c for c, _, _ in slice_calls(backward_slice(P, op_place(t['args'][1])['l'], dP)[0])} for _, t in ext)
+    pops = [t for _, t in P.calls() if (callee(t) or '').endswith('VecDeque::pop_front')]
+    popped = forward_derived(P, {pops[0]['dest']['l']}, through_calls=True) if pops else set()
+    yields_popped = False
+    for bb, j, st in P.all_assigns():
+        if st['lhs'] == {'l': 0} and st['rv']['k'] == 'agg' and st['rv'].get('var') == 'Some':
+            q = op_place(st['rv']['ops'][0])
+            yields_popped = q is not None and q['l'] in popped
+    parents_of_popped = bool(ext) and all(op_place(n['args'][0]) is not None and op_place(n['args'][0])['l'] in popped
+                                          for _, t in ext for c, _, n in slice_calls(backward_slice(P, op_place(t['args'][1])['l'], dP)[0]) if c == SG + 'direct_parent_ids')
+    # the queue starts with the requesting scope only
+    db = Defs(b)
+    SCOPE = A + 'user_components::scope_graph::ScopeId'
+    params = {i for i in range(1, b.raw['argc'] + 1) if b.locals[i] == SCOPE}
+    starts = []
+    for bb, t in b.calls():
+        c = callee(t) or ''
+        if 'VecDeque' in str(t.get('ga', '')) + (t['aty'][0] if t['aty'] else '') + b.locals[t['dest']['l']] and c.split('::')[-1] in ('from', 'push_back', 'from_iter') \
+                and 'VecDeque' in b.locals[t['dest']['l']] + (t['aty'][0] if t['aty'] else ''):
+            a = t['args'][-1]
+            q = op_place(a)
+            _, locs = backward_slice(b, q['l'], db) if q else ([], set())
+            starts.append(bool(locs & params))
+    current_first = bool(starts) and all(starts)
+    # consumer: find_map over the producer, in order, nothing dropped or reordered on the way
+    rsl, _ = backward_slice(b, op_place(fm[0][1]['args'][0])['l'], db)
+    rcalls = [c for c, _, _ in slice_calls(rsl)]
+    in_order = 'core::iter::sources::from_fn::from_fn' in rcalls and not [c for c in rcalls if c.startswith('core::iter::traits::') and c.split('::')[-1] in
+                                                                            ('rev', 'skip', 'skip_while', 'step_by', 'filter', 'take', 'take_while', 'chain', 'zip', 'peekable')]
+    # a miss in a scope continues: the closure yields the inner lookup's result, or None when the scope has no table
+    dC = Defs(C)
+    lk = [t for _, t in C.calls() if callee(t) == inner][0]
+    der = forward_derived(C, {lk['dest']['l']})
+    rets_inner = any(st['lhs'] == {'l': 0} and st['rv']['k'] == 'use' and op_place(st['rv']['op']) and op_place(st['rv']['op'])['l'] in der for _, _, st in C.all_assigns()) \
+        or lk['dest'] == {'l': 0}
+    other_somes = [1 for _, _, st in C.all_assigns() if st['lhs'] == {'l': 0} and st['rv']['k'] == 'agg' and st['rv'].get('var') == 'Some']
+    miss_ok = rets_inner and not other_somes
+    # the function's result is the find_map's result
+    res_sl, _ = backward_slice(b, 0, db)
+    in_walk = any(n is fm[0][1] for _, _, n in res_sl) and not [1 for _, _, st in b.all_assigns() if st['lhs'] == {'l': 0} and st['rv']['k'] == 'agg' and st['rv'].get('var') == 'Some']
+    ok = not chi and from_parents and parents_of_popped and yields_popped and qops == ['pop_front'] + ([] if 'push_back' not in qops else ['push_back']) \
+        and current_first and in_order and miss_ok and in_walk
+    ctx.ob(rule, 'scope-walk|%s' % name, ok, b.loc(fm[0][0]),
+           '(iterator form) current scope first: %s; parents only: %s (children consulted: %s); FIFO: %s, yields every scope it pops: %s; consumed in order by find_map: %s; '
+           'a miss in a scope always continues to its parents: %s; every result is produced inside the walk: %s'
+           % (current_first, from_parents and parents_of_popped, bool(chi), qops, yields_popped, in_order, miss_ok, in_walk))
+    return True
+
+
 def scope_lookup_shape(ctx, rule, fn, inner, crate='pavexc'):
     """shape of a scope-walking lookup: FIFO from the requesting scope, current scope first, parents only, and a miss in a scope
     (absent table OR no match in the table) always continues to the parents"""
@@ -126,6 +196,10 @@ def scope_lookup_shape(ctx, rule, fn, inner, crate='pavexc'):
     b = ctx.need(rule, fn.split('::')[-2] + '::' + fn.split('::')[-1], ctx.fb.body(crate, fn))
     if b is None:
         return
+    if not [1 for bb, t in b.calls() if callee(t) == inner]:
+        # the walk may be written as an iterator of scopes (`from_fn` over a FIFO) consumed by `find_map`
+        if _scope_lookup_iterator_form(ctx, rule, fn, inner, b, crate):
+            return
     defs = Defs(b)
     look = [(bb, t) for bb, t in b.calls() if callee(t) == inner]
     ext = [(bb, t) for bb, t in b.calls() if (callee(t) or '').endswith('::extend') and 'VecDeque' in t['aty'][0]]
